@@ -274,7 +274,7 @@ class AndersonCD(BaseSolver):
                         Xw = X @ w[:n_features] + self.fit_intercept * w[-1]
                     # TODO explain/clean this hack
                     else:
-                        Xw = np.zeros_like(y)
+                        Xw = np.zeros_like(y) + self.fit_intercept * w[-1]
                 else:
                     w = np.zeros(n_features + self.fit_intercept, dtype=X.dtype)
                     Xw = np.zeros(X.shape[0], dtype=X.dtype)
